@@ -694,7 +694,7 @@ func (x *World) run(op *model.Op, res *model.Result) *Violation {
 	case model.OpEmit:
 		ev := w.Event(x.events[model.EvCustom+op.N])
 		if op.Cs != 0 {
-			ev = ev.For(compsOf(op.Cs.List())...)
+			api.Spread(op.Cs.List(), func(s []ecs.Comp) { ev = ev.For(s...) })
 		}
 		ev.Emit(x.handle(op.E))
 	case model.OpGC:
